@@ -45,6 +45,44 @@ type byteEval struct {
 	isByte func(ssa.Value) bool
 	assume func(*ssa.Call) (int64, bool)
 	args   map[ssa.Value]int64 // parameter bindings when evaluating a callee
+	leaf   func(ssa.Value) (int64, bool)
+	strs   *StrIntern // string constants as opaque ids (only == and != are evaluated on them)
+}
+
+// StrIntern maps string constants to opaque integer ids far from any small integer.
+type StrIntern struct{ ids map[string]int64 }
+
+func NewStrIntern() *StrIntern { return &StrIntern{ids: map[string]int64{}} }
+
+func (si *StrIntern) ID(s string) int64 {
+	if id, ok := si.ids[s]; ok {
+		return id
+	}
+	id := int64(1<<40) + int64(len(si.ids))
+	si.ids[s] = id
+	return id
+}
+
+// StrReach is ByteReach over a finite set of strings: for each element s of domain it reports whether control in
+// fn can reach an instruction accepted by target when every value accepted by isVar is the string s and the values
+// fixed by leaf have the given value. Strings are compared only for equality; anything else about them is unknown
+// (both branches explored), so the answer over-approximates reachability.
+func StrReach(fn *ssa.Function, domain []string, isVar func(ssa.Value) bool, leaf func(ssa.Value, *StrIntern) (int64, bool), target func(ssa.Instruction) bool) map[string]bool {
+	out := map[string]bool{}
+	si := NewStrIntern()
+	for _, s := range domain {
+		ev := &byteEval{b: si.ID(s), isByte: isVar, strs: si}
+		if leaf != nil {
+			ev.leaf = func(v ssa.Value) (int64, bool) { return leaf(v, si) }
+		}
+		out[s] = ev.reach(fn, target)
+	}
+	return out
+}
+
+func isStringValue(v ssa.Value) bool {
+	b, ok := v.Type().Underlying().(*types.Basic)
+	return ok && b.Info()&types.IsString != 0
 }
 
 type edgeKey struct{ blk, prev *ssa.BasicBlock }
@@ -148,6 +186,11 @@ func (ev *byteEval) value(v ssa.Value, ctx phiCtx, depth int) (int64, bool) {
 	if a, ok := ev.args[v]; ok {
 		return a, true
 	}
+	if ev.leaf != nil {
+		if a, ok := ev.leaf(v); ok {
+			return a, true
+		}
+	}
 	if ev.isByte(v) {
 		return ev.b, true
 	}
@@ -157,6 +200,11 @@ func (ev *byteEval) value(v ssa.Value, ctx phiCtx, depth int) (int64, bool) {
 			return 0, false
 		}
 		switch x.Value.Kind() {
+		case constant.String:
+			if ev.strs != nil {
+				return ev.strs.ID(constant.StringVal(x.Value)), true
+			}
+			return 0, false
 		case constant.Bool:
 			if constant.BoolVal(x.Value) {
 				return 1, true
@@ -212,6 +260,9 @@ func (ev *byteEval) value(v ssa.Value, ctx phiCtx, depth int) (int64, bool) {
 		}
 		return val, !first
 	case *ssa.BinOp:
+		if isStringValue(x.X) && x.Op != token.EQL && x.Op != token.NEQ {
+			return 0, false
+		}
 		a, oka := ev.value(x.X, ctx, depth+1)
 		b, okb := ev.value(x.Y, ctx, depth+1)
 		if !oka || !okb {
@@ -277,7 +328,7 @@ func (ev *byteEval) call(fn *ssa.Function, args map[ssa.Value]int64, depth int) 
 	if depth > 12 || len(fn.Blocks) == 0 {
 		return 0, false
 	}
-	inner := &byteEval{b: ev.b, assume: ev.assume, args: copyEnv(args), isByte: func(ssa.Value) bool { return false }}
+	inner := &byteEval{b: ev.b, assume: ev.assume, args: copyEnv(args), isByte: func(ssa.Value) bool { return false }, strs: ev.strs}
 	blk, prev := fn.Blocks[0], (*ssa.BasicBlock)(nil)
 	for steps := 0; steps < 500; steps++ {
 		if len(blk.Instrs) == 0 {
